@@ -18,6 +18,7 @@ from __future__ import annotations
 import ast
 from typing import List, Optional, Set, Tuple
 
+from asl.absint import UNKNOWN
 from asl.cfg import Node, cfg_of
 from asl.flow import find_path, pretty_path, reachable
 from asl.loader import AnalysisError, Unit, norm, own_nodes
@@ -162,6 +163,8 @@ def r04_3(ctx) -> None:
 
 def _check_handle(ctx, short: str, info, pname: str, src: str, depth: int) -> None:
     aclose = info.methods.get("aclose")
+    if aclose is not None:
+        aclose = ctx.inlined(aclose)
     init = info.methods["__init__"]
     if aclose is None:
         ctx.fail("R04.3", init, f"class {info.name}", f"handle owns `{pname}` but has no aclose")
@@ -183,7 +186,7 @@ def _check_handle(ctx, short: str, info, pname: str, src: str, depth: int) -> No
             direct = [a for a in v if a[0] in ("iter", "user") and a[1] == src] or \
                      [a for a in v if a[0] == "elems" and a[1][0] in ("iter", "user") and a[1][1] == src]
             if direct:
-                why = _filter_problem(value)
+                why = _filter_problem(ctx, init, value)
                 if why:
                     ctx.fail("R04.3", init, n, f"field `{t.attr}` keeps only part of `{pname}`: {why}", node=n)
                 raw_fields.append(t.attr)
@@ -266,19 +269,32 @@ def _shared_list_fields(ctx, info) -> Set[str]:
     return out
 
 
-def _filter_problem(value: ast.AST) -> Optional[str]:
-    """A filtered collection is complete only if the filters keep every closeable iterator."""
+class _CloseableOps:
+    """The element is an async iterator that has ``aclose``: what does a filter say?"""
+
+    def call(self, name, args, kwargs, e, env):
+        if name == "isinstance" and len(e.args) == 2:
+            kinds = e.args[1].elts if isinstance(e.args[1], ast.Tuple) else [e.args[1]]
+            if all(norm(k).split(".")[-1] in ("AsyncIterator", "ACloseable", "AsyncIterable") for k in kinds):
+                return True
+        if name == "hasattr" and len(e.args) == 2 and isinstance(e.args[1], ast.Constant) \
+                and e.args[1].value in ("aclose", "__anext__", "__aiter__"):
+            return True
+        return UNKNOWN
+
+
+def _filter_problem(ctx, unit, value: ast.AST) -> Optional[str]:
+    """A filtered collection is complete only if the filters keep every closeable iterator:
+    each condition is abstractly evaluated for an element that is an async iterator with
+    ``aclose`` (predicates extracted into helpers are evaluated through their bodies)."""
+    from .common import abstract_values
     for sub in ast.walk(value):
         if isinstance(sub, (ast.GeneratorExp, ast.ListComp)):
             for g in sub.generators:
                 for cond in g.ifs:
-                    text = norm(cond)
-                    parts = cond.values if isinstance(cond, ast.BoolOp) and isinstance(cond.op, ast.And) else [cond]
-                    for part in parts:
-                        ok = isinstance(part, ast.Call) and isinstance(part.func, ast.Name) and part.func.id == "isinstance" \
-                            and norm(part.args[1]) in ("AsyncIterator", "ACloseable")
-                        if not ok:
-                            return f"filter `{text}` may drop closeable iterators"
+                    vals = abstract_values(ctx, unit, _CloseableOps(), cond, {})
+                    if vals != {True}:
+                        return f"filter `{norm(cond)}` may drop closeable iterators"
         if isinstance(sub, ast.Subscript) and isinstance(sub.slice, ast.Slice):
             return f"slice `{norm(sub)}`"
     return None
@@ -292,7 +308,7 @@ def _handle_close_nodes(ctx, aclose: Unit, cfg, src: str) -> Set[Node]:
             if isinstance(it, ast.Attribute) or isinstance(it, ast.Name):
                 out.add(n)
         elif n.kind == "await" and ownership._is_aclose_await(ctx, aclose, n, src) \
-                and not any(k == "loop" for (k, _a) in n.regions):
+                and not n.in_loop():
             out.add(n)
     return out
 
@@ -378,7 +394,7 @@ def _class_level(info, ctx, attr: str) -> bool:
 
 # --------------------------------------------------------------------------- R04.5
 def r04_5(ctx) -> None:
-    u = ctx.unit("itertools.tee_peer")
+    u = ctx.inlined(ctx.unit("itertools.tee_peer"))
     cfg = cfg_of(u)
     from . import c09
     P = c09._params(u)  # parameters identified by their annotations, not their names
